@@ -59,6 +59,8 @@ type Conn struct {
 	parked   []string   // command parked by the intercept
 	blocked  *blockState
 	closed   bool // no further command is executed, no further frame is queued
+	closing  bool // a frame that closes the socket after being written is already queued
+	dead     bool // the transport was torn down (cut, or closed on EOF): nothing can be written
 	quit     bool // QUIT was executed: close after its reply
 	inScript bool
 	scriptRO bool
@@ -197,10 +199,42 @@ func (c *Conn) queue(kind string, v Value) {
 		}
 		f.closeAfter = true
 		c.cutAfter = -1
+		c.closing = true
 	}
-	c.enqueue(f)
+	c.s.deliver(c, f)
 	if cut {
 		c.shutdown(SCut, "after-reply-bytes", modeDrain)
+	}
+}
+
+// deliver passes a frame toward the connection's writer. While events are
+// being buffered (a command handler is running) the frame is kept back and
+// handed over only after those events reached the sink, so that no client can
+// observe a frame before the sink has seen its SRep/SPush event.
+func (s *Server) deliver(c *Conn, f frame) {
+	if len(s.evstack) > 0 {
+		s.deferred = append(s.deferred, deferredFrame{c, f})
+		return
+	}
+	c.enqueue(f)
+}
+
+type deferredFrame struct {
+	c *Conn
+	f frame
+}
+
+// flushDeferred hands the kept-back frames over in queueing order. Frames of
+// connections whose transport was torn down meanwhile are dropped.
+func (s *Server) flushDeferred() {
+	for len(s.deferred) > 0 && len(s.evstack) == 0 {
+		batch := s.deferred
+		s.deferred = nil
+		for _, d := range batch {
+			if !d.c.dead {
+				d.c.enqueue(d.f)
+			}
+		}
 	}
 }
 
@@ -235,27 +269,20 @@ func (c *Conn) shutdown(kind, note string, mode shutdownMode) {
 	}
 	switch mode {
 	case modeCut:
-		c.held = nil
+		c.dead, c.held = true, nil
 		c.sc.Cut()
 		c.stopWriter()
 	case modeClose:
-		c.held = nil
+		c.dead, c.held = true, nil
 		c.sc.Close()
 		c.stopWriter()
 	case modeDrain:
-		if n := len(c.held); n > 0 && c.held[n-1].closeAfter {
-			return // the closing frame is held; Release will deliver it
+		// The closing marker travels the same path as the frames queued
+		// before it (deferred / held / writer), so it cannot overtake them.
+		if !c.closing {
+			c.closing = true
+			s.deliver(c, frame{closeAfter: true})
 		}
-		if c.hold {
-			c.held = append(c.held, frame{closeAfter: true})
-			return
-		}
-		c.omu.Lock()
-		if n := len(c.out); n == 0 || !c.out[n-1].closeAfter {
-			c.out = append(c.out, frame{closeAfter: true})
-		}
-		c.ocond.Broadcast()
-		c.omu.Unlock()
 	}
 }
 
